@@ -18,6 +18,8 @@ macro_rules! dispatch {
         match $id {
             "C01" => $f::<props::c01::C01>($($arg),*),
             "C02" => $f::<props::c02::C02>($($arg),*),
+            "C03" => $f::<props::c03::C03>($($arg),*),
+            "C04" => $f::<props::c04::C04>($($arg),*),
             "C05" => $f::<props::simprops::C05>($($arg),*),
             "C06" => $f::<props::simprops::C06>($($arg),*),
             "C07" => $f::<props::simprops::C07>($($arg),*),
